@@ -42,6 +42,16 @@ def trap(W, F, tid):
     return v
 
 
+from weakref import ref as weakref_ref
+
+
+class Sentinel(object):
+    __slots__ = ("sid", "__weakref__")
+
+    def __init__(self, sid):
+        self.sid = sid
+
+
 class Entry(object):
     __slots__ = ("mgr", "is_async", "state", "k")
 
@@ -123,6 +133,7 @@ class World(object):
         self.lst = [None, None, None, None]
         self.genlikes = []  # coroutine / generator / agen objects created by links
         self.kept = []
+        self.sentinels = []
         self.mgr_serial = 0
         self.all_mgrs = []
         self.never = False
@@ -170,6 +181,22 @@ class World(object):
 
     def keep(self, x):
         self.kept.append(x)
+
+    def sent(self, sid):
+        s = Sentinel(sid)
+        self.sentinels.append(weakref_ref(s))
+        return s
+
+    def use(self, *args):
+        return None
+
+    def live_sentinels(self):
+        out = []
+        for r in self.sentinels:
+            o = r()
+            if o is not None:
+                out.append(o)
+        return out
 
     def get(self, i):
         return self.lst
